@@ -1,89 +1,115 @@
-"""Reference model: CommonMark 0.30 delimiter-run algorithm for * and _ only (no links/code/escapes)."""
-import unicodedata, html
-def is_ws(c):  # unicode whitespace per spec 0.30: Zs, tab, LF, FF, CR
-    return c in '\t\n\x0c\r' or unicodedata.category(c)=='Zs'
-ASCII_PUNCT=set('!"#$%&\'()*+,-./:;<=>?@[\\]^_`{|}~')
+"""Reference model: the CommonMark 0.30 delimiter-run algorithm for '*' and '_' (spec 6.2 and the
+appendix "process emphasis"), for texts made of letters, spaces, punctuation and delimiter runs -
+no links, code spans, escapes or line breaks. Written from the specification text.
+
+openers_bottom is deliberately left out: with the 0.30 bucketing it is a pure optimisation (a
+closer kind that found no opener below a position never finds one there later), so the plain
+quadratic search *is* the specification."""
+import html
+import unicodedata
+
+ASCII_PUNCT = set('!"#$%&\'()*+,-./:;<=>?@[\\]^_`{|}~')
+
+
+def is_ws(c):
+    """Unicode whitespace character, spec 0.30: Zs, tab, line feed, form feed, carriage return."""
+    return c in '\t\n\x0c\r' or unicodedata.category(c) == 'Zs'
+
+
 def is_punct(c):
+    """ASCII punctuation character or anything in the general Unicode categories P*."""
     return c in ASCII_PUNCT or unicodedata.category(c).startswith('P')
+
+
 def scan(text):
-    """nodes: list of dict(kind='text'|'delim', s=..., ch, n, orig, can_open, can_close)"""
-    nodes=[]; i=0; n=len(text)
-    while i<n:
-        c=text[i]
+    nodes = []
+    i = 0
+    n = len(text)
+    while i < n:
+        c = text[i]
         if c in '*_':
-            j=i
-            while j<n and text[j]==c: j+=1
-            before=text[i-1] if i>0 else '\n'
-            after=text[j] if j<n else '\n'
+            j = i
+            while j < n and text[j] == c:
+                j += 1
+            before = text[i - 1] if i > 0 else '\n'      # beginning/end of line count as whitespace
+            after = text[j] if j < n else '\n'
             lf = (not is_ws(after)) and (not is_punct(after) or is_ws(before) or is_punct(before))
             rf = (not is_ws(before)) and (not is_punct(before) or is_ws(after) or is_punct(after))
-            if c=='*': co,cc=lf,rf
+            if c == '*':
+                co, cc = lf, rf
             else:
                 co = lf and (not rf or is_punct(before))
                 cc = rf and (not lf or is_punct(after))
-            nodes.append(dict(kind='delim',ch=c,n=j-i,orig=j-i,can_open=co,can_close=cc))
-            i=j
+            nodes.append(dict(kind='delim', ch=c, n=j - i, orig=j - i, can_open=co, can_close=cc, active=True))
+            i = j
         else:
-            j=i
-            while j<n and text[j] not in '*_': j+=1
-            nodes.append(dict(kind='text',s=text[i:j])); i=j
+            j = i
+            while j < n and text[j] not in '*_':
+                j += 1
+            nodes.append(dict(kind='text', s=text[i:j]))
+            i = j
     return nodes
+
+
 def process(nodes):
-    # nodes is a flat list; we mutate by wrapping
-    bottoms={}
-    pos=0
-    def key(d): return (d['ch'], d['orig']%3, d['can_open'])
+    pos = 0
     while True:
-        # find next closer
-        while pos<len(nodes) and not (nodes[pos]['kind']=='delim' and nodes[pos]['can_close'] and nodes[pos].get('active',True)):
-            pos+=1
-        if pos>=len(nodes): break
-        closer=nodes[pos]
-        bottom=None
-        j=pos-1; found=None
-        while j>=0:
-            o=nodes[j]
-            if bottom is not None and o is bottom: break
-            if o['kind']=='delim' and o.get('active',True) and o['ch']==closer['ch'] and o['can_open']:
-                odd = (o['can_close'] or closer['can_open']) and (o['orig']+closer['orig'])%3==0 and not (o['orig']%3==0 and closer['orig']%3==0)
+        while pos < len(nodes) and not (nodes[pos]['kind'] == 'delim' and nodes[pos]['can_close'] and nodes[pos]['active']):
+            pos += 1
+        if pos >= len(nodes):
+            break
+        closer = nodes[pos]
+        found = None
+        j = pos - 1
+        while j >= 0:
+            o = nodes[j]
+            if o['kind'] == 'delim' and o['active'] and o['ch'] == closer['ch'] and o['can_open']:
+                odd = ((o['can_close'] or closer['can_open'])
+                       and (o['orig'] + closer['orig']) % 3 == 0
+                       and not (o['orig'] % 3 == 0 and closer['orig'] % 3 == 0))
                 if not odd:
-                    found=j; break
-            j-=1
+                    found = j
+                    break
+            j -= 1
         if found is not None:
-            opener=nodes[found]
-            k=2 if opener['n']>=2 and closer['n']>=2 else 1
-            inner=nodes[found+1:pos]
+            opener = nodes[found]
+            k = 2 if opener['n'] >= 2 and closer['n'] >= 2 else 1
+            inner = nodes[found + 1:pos]
             for d in inner:
-                if d['kind']=='delim': d['active']=False
-            wrap=dict(kind='strong' if k==2 else 'em', children=inner)
-            opener['n']-=k; closer['n']-=k
-            new=nodes[:found+1]+[wrap]+nodes[pos:]
-            nodes[:]=new
-            pos=found+2  # index of closer
-            if opener['n']==0:
-                del nodes[found]; pos-=1
-            if closer['n']==0:
-                del nodes[pos]   # pos now points to next element
+                if d['kind'] == 'delim':
+                    d['active'] = False
+            wrap = dict(kind='strong' if k == 2 else 'em', children=inner)
+            opener['n'] -= k
+            closer['n'] -= k
+            nodes[:] = nodes[:found + 1] + [wrap] + nodes[pos:]
+            pos = found + 2
+            if opener['n'] == 0:
+                del nodes[found]
+                pos -= 1
+            if closer['n'] == 0:
+                del nodes[pos]
         else:
-            # bottom := element before current position
-            prev=None
-            j=pos-1
-            # element before in the *delimiter stack*: previous active delimiter; using node identity of previous node is equivalent for search cut-off if we stop at first node <= it.
-            bottoms[key(closer)]=nodes[pos-1] if pos>0 else 'START'
-            if pos==0: bottoms[key(closer)]=None  # nothing below anyway
             if not closer['can_open']:
-                closer['active']=False
-            pos+=1
+                closer['active'] = False
+            pos += 1
     return nodes
+
+
 def to_html(nodes):
-    out=[]
+    out = []
     for d in nodes:
-        if d['kind']=='text': out.append(html.escape(d['s'],quote=False))
-        elif d['kind']=='delim': out.append(d['ch']*d['n'])
-        else: out.append('<%s>%s</%s>'%(d['kind'],to_html(d['children']),d['kind']))
+        if d['kind'] == 'text':
+            out.append(html.escape(d['s'], quote=False))
+        elif d['kind'] == 'delim':
+            out.append(d['ch'] * d['n'])
+        else:
+            out.append('<%s>%s</%s>' % (d['kind'], to_html(d['children']), d['kind']))
     return ''.join(out)
+
+
 def model(text):
     return to_html(process(scan(text)))
-if __name__=='__main__':
-    import sys
-    for t in sys.argv[1:]: print(repr(t), model(t))
+
+
+def has_emphasis(text):
+    return any(d['kind'] in ('em', 'strong') for d in process(scan(text)))
